@@ -52,6 +52,11 @@ def name_schemes(O, S, leafmap):
     # names that look like automatic labels, deliberately not in pre-order
     out["autolike"] = ({v: (f"O{(v + 3) % (O.n + 2)}" if O.children[v] else f"S{leafmap[v]}_{v}") for v in range(O.n)},
                        {v: f"S{(2 * v + 1) % (2 * S.n + 1)}" for v in range(S.n)})
+    # distinct names that differ only by letter case inside one tree (and digits-as-suffix variants)
+    def cased(prefix, v):
+        base = prefix + "abcdefghijklmnop"[v // 2]
+        return base.upper() if v % 2 else base
+    out["casepairs"] = ({v: cased("g", v) for v in range(O.n)}, {v: cased("", v) for v in range(S.n)})
     return out
 
 
